@@ -3,6 +3,8 @@
 Parts
   A  dependency DAGs (c05_gen) x failure point x exception kind x histories of <= 3 failure/repair edits
   N  the allow_none resolution matrix (cells / space / parent space / model) for a formula returning None
+  H  DAGs in which callers handle (try/except) the failure of an element: the handled failure leaves no value,
+     the callers complete, later evaluations are unaffected
   R  recursion-limit chains (cached, uncached, mixed, through ItemSpaces): shorter than the limit evaluate,
      far beyond the limit fail with DeepReferenceError, every outcome leaves a retryable state; a failure at
      every depth of a deep chain
@@ -14,6 +16,7 @@ call, the failing chain, the elements completed before the failure and the corre
 import itertools, random, subprocess, tempfile, os
 from common import *          # mx, Result, reset, sanity, sysimpl, main
 from c05_gen import *
+from c05_par import run_parallel
 
 SMALL = 20
 DEFAULT_LIMIT = mx.get_recursion()
@@ -33,6 +36,9 @@ def wf_violation():
     if len(s.refstack): bad.append("refstack not empty")
     if len(ex.rolledback) and False: bad.append("rolledback")
     return bad
+def attr_refs(cells, key):
+    """names of the references recorded as read (by attribute path) by this value"""
+    return sorted(n.obj.fullname for n in cells._impl.get_attrpreds(key, {}))
 def graph_violation(model):
     """nodes of the dependency graph must be exactly the held values (library's own Cells.check_sanity rule)"""
     g = model._impl.tracegraph
@@ -221,7 +227,58 @@ class Runner:
                           "sys.exit(1 if %s == ('held', %r) else 0)" % (obs_expr(sp, j), v))
         return ok
 
+    def ref_name(self, full):
+        parts = full.split(".")
+        if parts[-1] == "v" and len(parts) > 2:
+            return parts[1] + ".v"
+        return parts[-1]
+
+    def allowed_refs(self, j, seen=None):
+        """-> (must, may): names of references the value of element j has read by attribute path"""
+        sp = self.spec
+        nd = sp.nodes[j]
+        must, may = set(), set()
+        prog = sp.render(j)[1]
+        if any(st["op"] == "K" for st in prog):
+            must.add("k%d" % j)
+        if nd.fail is not None and nd.fail.cond:
+            must.add("f%d" % j)
+        may |= must
+        for dep in nd.deps:
+            td = sp.nodes[dep.d]
+            if td.kind == "Z":
+                (may if dep.handled else must).add("Zsp%d.v" % dep.d)
+                may.add("Zsp%d.v" % dep.d)
+            elif not td.cached:
+                m2, y2 = self.allowed_refs(dep.d)
+                may |= y2            # (whether reads of an uncached callee count for the caller is C09's subject)
+        return must, may
+
+    def refs_check(self):
+        sp, ns = self.spec, self.rec.ns
+        heldv, _, _ = observe(sp, self.rec)
+        for j in heldv:
+            nd = sp.nodes[j]
+            if nd.kind not in "SPLDOK" or j in sp.inputs:
+                continue
+            space = {"Main": "Main", "Oth": "Oth", "Kid": "Kid"}[nd.home]
+            key = (1,) if nd.param else ()
+            actual = {self.ref_name(x) for x in ns["attr_refs"](ns[space].cells["c%d" % j], key)}
+            must, may = self.allowed_refs(j)
+            handled = any(d.handled for d in nd.deps)
+            foreign = actual - may
+            missing = set() if handled else must - actual
+            if foreign or missing:
+                self.fail("chk-refs", "%s: references recorded as read are %r; its formula read %r%s"
+                          % (sp.label(j), sorted(actual), sorted(must),
+                             " (may also count %r)" % sorted(may - must) if may - must else ""),
+                          "got = {x.split('.')[-1] if not x.endswith('.v') else x.split('.')[1] + '.v' for x in "
+                          "attr_refs(%s.cells['c%d'], %r)}\nsys.exit(1 if (got - %r or %r - got) else 0)"
+                          % (space, j, key, may, set() if handled else must),
+                          {"foreign-ref"} if foreign else {"missing-ref"})
+
     def state_checks(self):
+        self.refs_check()
         bad = self.rec.ns["wf_violation"]()
         if bad:
             self.fail("chk-not-executing", "after the call: " + "; ".join(bad), "sys.exit(1 if wf_violation() else 0)")
@@ -341,13 +398,15 @@ def dags(n):
 KIND_POOL = "SSSPPUVLDOKIZ"
 STYLES = ["plain", "plain", "plain", "comp", "gen", "lam", "sub"]
 SITES = {"zde": ["direct", "comp", "gen", "nested", "helper"], "boom": ["direct", "comp", "gen", "nested", "helper"],
-         "none": ["direct"], "depth": ["direct"], "kbi": ["direct"], "stop": ["direct"]}
+         "none": ["direct"], "depth": ["direct"], "kbi": ["direct"], "stop": ["direct"], "badret": ["direct"]}
 MAIN_KINDS = ["zde", "boom", "none", "depth"]
 
 
 def legal_kind(kind, fkind, mode):
     """Node kind that can carry this failure (see module doc of c05_gen for the exclusions)."""
-    if fkind == "none" and kind in "UVZ":      # an uncached cells / a space formula may return None
+    if fkind == "none" and kind in "UV":       # an uncached cells may return None
+        kind = "S"
+    if fkind == "none" and kind == "Z" and mode == "flag":
         kind = "S"
     if mode == "flag" and kind in "UV":        # (flag reads by uncached cells are C09's subject)
         kind = "P"
@@ -361,6 +420,8 @@ def make_case(n, deps, p, fkind, rnd, extra_kinds=False):
     kinds = [rnd.choice(KIND_POOL) for _ in range(n)]
     mode = rnd.choice(["defn", "edit", "flag"])
     kinds[p] = legal_kind(kinds[p], fkind, mode)
+    if kinds[p] == "Z" and fkind == "none":
+        fkind = "badret"           # what "returning a value that is not allowed" means for a space formula
     shape = rnd.choice(["FRF", "FRF", "FFR1", "FFR2", "FR", "FF", "F"])
     p2 = rnd.randrange(n)
     fkind2 = rnd.choice(MAIN_KINDS + (["kbi"] if extra_kinds else []))
@@ -370,6 +431,11 @@ def make_case(n, deps, p, fkind, rnd, extra_kinds=False):
         kinds[p] = legal_kind(legal_kind(kinds[p], fkind2, mode2), fkind, mode)
     else:
         kinds[p2] = legal_kind(kinds[p2], fkind2, mode2)
+    if kinds[p2] == "Z" and fkind2 == "none":
+        if p2 == p:
+            fkind2 = "zde"
+        else:
+            fkind2 = "badret"
     nodes = []
     for j in range(n):
         ds = list(deps[j])
@@ -486,7 +552,14 @@ def run_case(res, c):
         R.close()
 
 
-def part_a(res, tier):
+def case_a(res, item):
+    idx, n, deps, p, fkind = item
+    reset()
+    rnd = random.Random(idx * 7919 + 13)
+    run_case(res, make_case(n, deps, p, fkind, rnd))
+
+
+def items_a(tier):
     nmax_exh = 4 if tier == "quick" else 5
     idx = 0
     for n in range(1, nmax_exh + 1):
@@ -497,11 +570,63 @@ def part_a(res, tier):
                     if tier == "quick" and n == 4 and (idx % 2):
                         # quick tier: every DAG x p x kind on <= 3 cells, every second combination on 4
                         continue
-                    if res.expired():
-                        return False
-                    reset()
-                    rnd = random.Random(idx * 7919 + 13)
-                    run_case(res, make_case(n, deps, p, fkind, rnd))
+                    yield (idx, n, deps, p, fkind)
+
+
+def part_a(res, tier):
+    if tier != "quick":
+        return run_parallel(res, case_a, items_a(tier), chunk=32, reserve=0.12)
+    for item in items_a(tier):
+        if res.expired():
+            return False
+        case_a(res, item)
+    return True
+
+
+# ====================================================================== part H: failures that formulas handle
+
+def case_h(res, item):
+    idx, n, deps, p, fkind = item
+    reset()
+    rnd = random.Random(idx * 15485863 + 3)
+    spec, small, errmode, ph = make_handled_spec(n, deps, p, fkind, rnd, escape=(idx % 3 == 0))
+    R = Runner(res, spec, errmode, small_limit=small, base_tags={"partH", "err-" + errmode},
+               hist_key=("H", idx))
+    if ph is not None:
+        R.tags.add("handled-failure-in-model")
+    try:
+        up = list(range(n))
+        orders = [up[::-1], up] if idx % 2 else [up, up[::-1]]
+        for order in orders:
+            for q in order:
+                R.query(q)
+                if R.aborted:
+                    return
+            R.end_of_step()
+    finally:
+        R.close()
+
+
+def items_h(tier):
+    idx = 0
+    for n in range(2, 5):
+        for mask, deps in dags(n):
+            for p in range(n):
+                for fkind in MAIN_KINDS:
+                    for rep in range(4 if n <= 3 else 1):      # small DAGs: four draws of the other dimensions
+                        idx += 1
+                        if tier == "quick" and n == 4 and (idx % 4):
+                            continue
+                        yield (idx, n, deps, p, fkind)
+
+
+def part_h(res, tier):
+    if tier != "quick":
+        return run_parallel(res, case_h, items_h(tier), chunk=32, reserve=0.12)
+    for item in items_h(tier):
+        if res.expired():
+            return False
+        case_h(res, item)
     return True
 
 
@@ -617,6 +742,9 @@ CHAINS = {
     "itemspace": ['R = m.new_space("R", formula="lambda i: None")', "R.Main = Main", "R.z = 0", "Main.R = R",
                   'R.new_cells("h", formula="def h():\\n    return Main.R[i - 1].h() + 1 if i > 0 else _space.z")', 'Main.new_cells("f", formula="def f(x):\\n    return R[x].h()")'],
     "lambda": ['Main.new_cells("f", formula="lambda x: f(x - 1) + 1 if x > 0 else _space.z")'],
+    # every level completes a side element g(x) before it descends
+    "comb": ['Main.new_cells("g", formula="def g(x):\\n    return _space.one")', "Main.one = 1",
+             'Main.new_cells("f", formula="def f(x):\\n    return g(x) + f(x - 1) if x > 0 else _space.z")'],
 }
 
 
@@ -630,6 +758,8 @@ def chain_setup(rec, kind):
 def chain_held(rec, kind):
     ns = rec.ns
     n = len(ns["held"](ns["Main"].cells["f"]))
+    if kind == "comb":
+        return n
     if kind == "mixed":
         n += len(ns["held"](ns["Main"].cells["g"]))
     if kind == "itemspace":
@@ -672,6 +802,8 @@ def run_chain(res, kind, M, L, extra, fail_at_bottom):
                 other = {"f": "g", "g": "f"}[c] if kind == "mixed" else "f"
                 if kind == "lambda":
                     rec.do('Main.f.formula = "lambda x: f(x - 1) + 1 if x > 0 else 1 // _space.z"')
+                elif kind == "comb":
+                    rec.do('Main.f.formula = "def f(x):\\n    return g(x) + f(x - 1) if x > 0 else 1 // _space.z"')
                 else:
                     rec.do('Main.%s.formula = "def %s(x):\\n    return %s(x - 1) + 1 if x > 0 else 1 // _space.z"'
                            % (c, c, other))
@@ -710,6 +842,14 @@ def run_chain(res, kind, M, L, extra, fail_at_bottom):
         if failed and type(r[1]).__name__ != "FormulaError":
             fail("chk-raises", "raised %s instead of FormulaError" % type(r[1]).__name__,
                  "sys.exit(1 if type(_r[1]).__name__ != 'FormulaError' else 0)")
+        if kind == "comb":
+            # side elements completed before the failure keep correct values; none is lost, none is wrong
+            gv = rec.ev("held(Main.g)")
+            wrong = {k: v for k, v in gv.items() if v != 1}
+            if wrong or (failed and zone == "shorter-than-limit" and len(gv) != x):
+                fail("chk-completed", "side elements completed before the failure: %d hold values (%d completed), "
+                     "wrong: %r" % (len(gv), x, wrong),
+                     "g = held(Main.g)\nsys.exit(1 if (len(g) != %d or any(v != 1 for v in g.values())) else 0)" % x)
         if failed:
             nh = chain_held(rec, kind)
             # a linear chain: every element was executing, none may hold a value
@@ -734,7 +874,7 @@ def run_chain(res, kind, M, L, extra, fail_at_bottom):
             # a second, shorter chain under the small limit again: cached values are reused
             rec.do("mx.set_recursion(%d)" % M)
             r3 = rec.call("Main.f(%d)" % max(x - 1, 0))
-            if kind in ("cached", "lambda", "itemspace") and r3 != ("ok", max(x - 1, 0) + (1 if fail_at_bottom else 0)):
+            if kind in ("cached", "lambda", "itemspace", "comb") and r3 != ("ok", max(x - 1, 0) + (1 if fail_at_bottom else 0)):
                 fail("chk-retry-outcome", "held values not reused after the retry: %r" % (r3,),
                      "sys.exit(1 if _r[0] == 'err' else 0)")
             bad = rec.ns["wf_violation"]() + rec.ns["graph_violation"](rec.ns["m"])
@@ -822,12 +962,14 @@ def run(res, tier, seed):
         ok &= part_n(res, tier)
         ok &= part_r(res, tier)
         ok &= part_x(res, tier)
+        ok &= part_h(res, tier)
         ok &= part_a(res, tier)
         part_a_sampled(res, tier, 0.9)
     else:
         ok &= part_n(res, tier)
         ok &= part_r(res, tier)
         ok &= part_x(res, tier)
+        ok &= part_h(res, tier)
         ok &= part_a(res, tier)
         part_a_sampled(res, tier, 0.93)
     res.exhaustive = bool(ok)
